@@ -154,6 +154,14 @@ def _job(args):
                         except Exception as e:  # noqa
                             kd = f'raises:{type(e).__name__}'
                         ev['cells'].append([si + 1, c, r, kd])
+                # a second executor of the same class object extends a sheet by an override far outside; a third one, created afterwards,
+                # must still report the workbook's own sizes (sizes belong to the executor's overrides, not to the class)
+                klass = type(inst)
+                far = repo.Executor().set_executed_class(class_object=klass)
+                far.set_cells([Cell(0, 40, 50, 1)])
+                far.get_cell(Cell(0, 0, 0))
+                fresh = repo.Executor().set_executed_class(class_object=klass).get_executed_class()
+                ev['sizes_fresh'] = [{'cols': z['last_column'], 'rows': z['last_row']} for z in fresh.get_sheets_size()]
                 # the reader's own view: coordinates of Excel.get_cells()
                 n = len(repo.Excel.parse(x).get_cells())
                 ev['ncells'] = n
@@ -246,6 +254,10 @@ def check(run):
                   nontrivial=gap or len(rec['sheets']) > 1, part='layout')
         run.evaluations += len(ev['cells'])
         run.traces_validated += 1 + len(ev['cells'])
+        if ev.get('sizes_fresh') != ev['sizes']:
+            run.judge(dict(case, obs={'sizes': ev['sizes'], 'sizes_of_a_later_executor_of_the_class': ev.get('sizes_fresh')}), False,
+                      clause=f"another executor of the same class set a cell far outside; a new executor of that class then reports {ev.get('sizes_fresh')} instead of the workbook's {ev['sizes']}",
+                      part='layout')
 
 
 def replay(run, case):
